@@ -1009,6 +1009,22 @@ func (s *SCCP) eval(st *fnState, v ssa.Value, get func(ssa.Value) AVal, depth in
 							return v
 						}
 					}
+				} else if al := fa.X.(*ssa.Alloc); s.objFields[al] == nil {
+					// the slot of a struct parameter handed over by value: the whole value stored into it stands for the
+					// caller's literal (struct values are represented by the object they were read from)
+					wv := bot
+					if refs := al.Referrers(); refs != nil {
+						for _, rf := range *refs {
+							if sto, ok := rf.(*ssa.Store); ok && sto.Addr == ssa.Value(al) && st.execB[sto.Block()] {
+								wv = join(wv, get(sto.Val))
+							}
+						}
+					}
+					if wv.K == APtr && wv.Obj != al && plainLiteral(wv.Obj) {
+						if v, ok := s.objFields[wv.Obj][fa.Field]; ok {
+							return v
+						}
+					}
 				}
 			}
 			if fv, ok := x.X.(*ssa.FreeVar); ok {
@@ -1019,6 +1035,9 @@ func (s *SCCP) eval(st *fnState, v ssa.Value, get func(ssa.Value) AVal, depth in
 			}
 			// load of a local that is only stored once with a known value (spilled variable)
 			if al, ok := x.X.(*ssa.Alloc); ok {
+				if _, isStruct := x.Type().Underlying().(*types.Struct); isStruct && len(s.objFields[al]) > 0 && plainLiteral(al) {
+					return AVal{K: APtr, Obj: al} // the value of a local struct literal: represented by the object
+				}
 				return s.loadLocal(st, al, get)
 			}
 			return top
@@ -1113,6 +1132,11 @@ func (s *SCCP) eval(st *fnState, v ssa.Value, get func(ssa.Value) AVal, depth in
 	case *ssa.Field:
 		if b, ok := s.bindingFor(s.sc.Paths, fn, x); ok {
 			return b
+		}
+		if sv := get(x.X); sv.K == APtr && plainLiteral(sv.Obj) {
+			if v, ok := s.objFields[sv.Obj][x.Field]; ok {
+				return v
+			}
 		}
 		return top
 	case *ssa.Index:
@@ -1427,10 +1451,50 @@ func errorReturns(st *fnState) []string {
 		if rv[idx].K == ABot {
 			continue
 		}
+		// `return helper(...)`: one outcome per return of the helper instead of their join
+		if ex, ok := resolveSpill(r.Results[idx]).(*ssa.Extract); ok && rv[idx].K == ATop {
+			if tv, had := st.val[ex.Tuple]; had && tv.K == ATuple && len(tv.Alts) >= 2 {
+				for _, alt := range tv.Alts {
+					if ex.Index < len(alt) && alt[ex.Index].K != ABot {
+						a := alt[ex.Index]
+						if a.K == ANonNil && isErrorType(ex.Type()) {
+							a = top // an error known only to be non-nil: reported as before the helper existed
+						}
+						set[a.String()] = true
+					}
+				}
+				continue
+			}
+		}
 		// a return of a variable merged in the returning block (`return failed` after `failed = err; break`): one
 		// outcome per executable incoming edge instead of their join
-		if ph, ok := resolveSpill(r.Results[idx]).(*ssa.Phi); ok && ph.Block() == r.Block() && rv[idx].K == ATop {
+		if ph, ok := resolveSpill(r.Results[idx]).(*ssa.Phi); ok && (ph.Block() == r.Block() || ph.Block().Dominates(r.Block())) && rv[idx].K == ATop {
 			split := true
+			// `if failed != nil { return failed }`: behind the non-nil edge of the merged variable's own test the nil
+			// edges do not arrive
+			dropNil := false
+			if ph.Block() != r.Block() {
+				for _, tb := range st.fn.Blocks {
+					cond, ts, fs := condEdge(tb)
+					bo, isBO := cond.(*ssa.BinOp)
+					if !isBO || (bo.Op != token.NEQ && bo.Op != token.EQL) {
+						continue
+					}
+					if !((bo.X == ssa.Value(ph) && isNilConst(bo.Y)) || (bo.Y == ssa.Value(ph) && isNilConst(bo.X))) {
+						continue
+					}
+					nonNilS := ts
+					if bo.Op == token.EQL {
+						nonNilS = fs
+					}
+					if len(nonNilS.Preds) == 1 && blockOrDom(nonNilS, r.Block()) {
+						dropNil = true
+					}
+				}
+				if !dropNil {
+					split = false
+				}
+			}
 			var parts []string
 			for i, e := range ph.Edges {
 				if !st.execE[[2]int{ph.Block().Preds[i].Index, ph.Block().Index}] {
@@ -1449,7 +1513,7 @@ func errorReturns(st *fnState) []string {
 					split = false
 					break
 				}
-				if a.K != ABot {
+				if a.K != ABot && !(dropNil && a.isNil()) {
 					parts = append(parts, a.String())
 				}
 			}
@@ -1527,6 +1591,16 @@ func loopOver(st *fnState, path string, n int) loopExits {
 					if rv, ok := st.rets[r]; ok && rv[idx].K != ABot {
 						set[rv[idx].String()] = true
 					}
+				}
+			}
+			// an exit by `break` (the verdict is kept in a variable and returned after the loop): follow the edge to
+			// the return it leads to, with the values the merged variables take on this edge
+			for _, sx := range x.Succs {
+				if sx == b || sx == body || body.Dominates(sx) || !st.execE[[2]int{x.Index, sx.Index}] || idx < 0 {
+					continue
+				}
+				if v, ok := st.followExit(x, sx, idx); ok {
+					set[v.String()] = true
 				}
 			}
 		}
@@ -1955,4 +2029,159 @@ func (s *SCCP) refinedCond(cond ssa.Value, at *ssa.BasicBlock, get func(ssa.Valu
 		}
 	}
 	return res, true
+}
+
+// followExit: control leaves a loop over the edge from->to; follow it through blocks that only merge variables and
+// test them (`if failed != nil { return failed }`) to a return, and give the abstract error that return carries on
+// this path (a test that cannot be decided is followed both ways; a way that does more than merge and return is dropped).
+func (st *fnState) followExit(from, to *ssa.BasicBlock, idx int) (AVal, bool) {
+	var results []AVal
+	var walk func(prev, cur *ssa.BasicBlock, env map[ssa.Value]AVal, hop int)
+	walk = func(prev, cur *ssa.BasicBlock, env map[ssa.Value]AVal, hop int) {
+		if hop > 6 {
+			return
+		}
+		val := func(v ssa.Value) (AVal, bool) {
+			if a, ok := env[v]; ok {
+				return a, true
+			}
+			if k, ok := v.(*ssa.Const); ok {
+				if k.Value == nil {
+					return nilVal, true
+				}
+				return AVal{K: AConst, C: k.Value}, true
+			}
+			if a, ok := st.val[v]; ok {
+				return a, true
+			}
+			return bot, false
+		}
+		pi := -1
+		for i, p := range cur.Preds {
+			if p == prev {
+				pi = i
+			}
+		}
+		for _, ins := range cur.Instrs {
+			switch x := ins.(type) {
+			case *ssa.Phi:
+				if pi >= 0 {
+					if a, ok := val(x.Edges[pi]); ok {
+						env[x] = a
+					}
+				}
+			case *ssa.DebugRef, *ssa.RunDefers:
+			case *ssa.BinOp:
+				if x.Op == token.EQL || x.Op == token.NEQ {
+					a, ok1 := val(x.X)
+					b, ok2 := val(x.Y)
+					if ok1 && ok2 {
+						nn := func(v AVal) bool {
+							return v.K == ASentinel || v.K == AFresh || v.K == ANonNil || v.K == APtr || v.K == AContainer
+						}
+						switch {
+						case a.isNil() && b.isNil():
+							env[x] = cBool(x.Op == token.EQL)
+						case (a.isNil() && nn(b)) || (b.isNil() && nn(a)):
+							env[x] = cBool(x.Op == token.NEQ)
+						}
+					}
+				}
+			case *ssa.UnOp:
+				if x.Op == token.NOT {
+					if a, ok := val(x.X); ok {
+						if bv, isB := a.boolVal(); isB {
+							env[x] = cBool(!bv)
+						}
+					}
+				}
+			case *ssa.If:
+				a, ok := val(x.Cond)
+				bv, isB := a.boolVal()
+				cp := func() map[ssa.Value]AVal {
+					m := map[ssa.Value]AVal{}
+					for k, v := range env {
+						m[k] = v
+					}
+					return m
+				}
+				if ok && isB {
+					if bv {
+						walk(cur, cur.Succs[0], cp(), hop+1)
+					} else {
+						walk(cur, cur.Succs[1], cp(), hop+1)
+					}
+				} else {
+					walk(cur, cur.Succs[0], cp(), hop+1)
+					walk(cur, cur.Succs[1], cp(), hop+1)
+				}
+				return
+			case *ssa.Jump:
+				walk(cur, cur.Succs[0], env, hop+1)
+				return
+			case *ssa.Return:
+				if idx < len(x.Results) {
+					if a, ok := val(resolveSpill(x.Results[idx])); ok && a.K != ABot {
+						results = append(results, a)
+					}
+				}
+				return
+			default:
+				return // this way does more than merge and return
+			}
+		}
+	}
+	walk(from, to, map[ssa.Value]AVal{}, 0)
+	if len(results) == 0 {
+		return bot, false
+	}
+	v := results[0]
+	for _, a := range results[1:] {
+		if !aEq(v, a) {
+			v = join(v, a)
+		}
+	}
+	return v, true
+}
+
+var plainLiteralMemo sync.Map
+
+// plainLiteral: the local struct is only ever filled by stores into its fields and read (a composite literal or a
+// record assembled field by field): no field address is handed to a call (rows.Scan(&rec.f)) or kept, so the values
+// stored are the values it holds. Only such objects stand for their value when the struct is copied.
+func plainLiteral(al *ssa.Alloc) bool {
+	if v, ok := plainLiteralMemo.Load(al); ok {
+		return v.(bool)
+	}
+	ok := true
+	if al.Referrers() != nil {
+		for _, rf := range *al.Referrers() {
+			switch x := rf.(type) {
+			case *ssa.FieldAddr:
+				if x.Referrers() == nil {
+					continue
+				}
+				for _, r2 := range *x.Referrers() {
+					switch y := r2.(type) {
+					case *ssa.Store:
+						if y.Addr != ssa.Value(x) {
+							ok = false
+						}
+					case *ssa.UnOp, *ssa.DebugRef:
+					default:
+						ok = false
+					}
+				}
+			case *ssa.UnOp, *ssa.DebugRef:
+			case *ssa.Store:
+				if x.Addr != ssa.Value(al) {
+					ok = false // the address of the struct is stored somewhere
+				}
+			default:
+				ok = false
+			}
+		}
+	}
+	plainLiteralMemo.Store(al, ok)
+	return ok
 }
